@@ -135,7 +135,16 @@ def run_suite(ctx: core.Ctx, suite: Suite, cases, *, chunk=20000):
                 ctx.violation(key, what, c, o, expected, suite=suite.name)
             if m is not None:
                 d = suite.compare(c, o, m)
-                if d is not None:
+                if d is not None and getattr(suite, "supplementary", False):
+                    # obligations next to the property that its text does not itself state: a
+                    # difference is recorded (evidence note + distribution bucket), never judged
+                    ctx.dist["supplementary-divergence/" + suite.name] += 1
+                    if sum(1 for n in ctx.notes if n.startswith("supplementary divergence")) < 10:
+                        ctx.notes.append(f"supplementary divergence ({suite.name}): {d}: input {core.canon(c)[:300]} "
+                                         f"real {core.canon(o)[:300]} model {core.canon(m)[:300]}")
+                    if ctx.dist["supplementary-divergence/" + suite.name] <= 3:
+                        print(f"INFO property={ctx.prop_id} supplementary={suite.name} differs from the model (not a verdict): {d}"[:300])
+                elif d is not None:
                     ctx.divergence(suite.name, c, o, m)
 
 
